@@ -18,7 +18,7 @@ for pid in ids:
     except jsonschema.ValidationError as ex:
         print("INVALID", pid, str(ex)[:200]); ok = False; continue
     print(pid, e.get("verdict"), e.get("tier"), "seed", e.get("seed"), "cases", e["coverage"].get("evaluations"),
-          "known", len(e.get("known_findings_seen", []) or []))
+          "known", len(e["coverage"].get("known_findings_seen", []) or []))
 props = [json.loads(l)["id"] for l in open(os.path.join(HERE, "properties.jsonl"))]
 na = [x["property_id"] if isinstance(x, dict) else x for x in m.get("not_applicable", [])]
 if sorted(ids + na) != sorted(props):
